@@ -51,7 +51,13 @@ func HC09_embedded() {
 	before := vfChoice("before", 2) == 1
 	after := vfChoice("after", 2) == 1
 	if before {
-		add(types.NewField(0, pkg, "A", types.Typ[types.String], false), `json:"a"`)
+		// the outer field may carry the Go name of the first embedded field (allowed by Go: it shadows the
+		// promoted selector); its JSON key differs, so encoding/json writes both
+		name := "A"
+		if vfChoice("sameGoName", 2) == 1 {
+			name = embVars[0].Name()
+		}
+		add(types.NewField(0, pkg, name, types.Typ[types.String], false), `json:"a"`)
 	}
 	kind := vfChoice("embedding", 3)
 	var embField *types.Var
